@@ -56,7 +56,7 @@ Interp(s, auto) ==
         route == SubSeq(toks, 2, Len(toks))
         n    == Len(route)
         portcls == IF Len(hp) = 1 THEN "ok"
-                   ELSE IF Len(hp) > 2 THEN "unspec"
+                   ELSE IF Len(hp) > 2 THEN "reject"                      \* what follows the first colon is not a TCP port number
                    ELSE IF IsDigits(hp[2]) /\ DecVal(hp[2]) >= 1 /\ DecVal(hp[2]) <= 65534 THEN "ok" ELSE "reject"
         port == IF Len(hp) = 2 /\ portcls = "ok" THEN DecVal(hp[2]) ELSE 0
         hostcls == IF Len(host) = 0 \/ (\E i \in 1..Len(s) : s[i] <= 32 \/ s[i] > 126) THEN "unspec" ELSE "ok"
